@@ -25,6 +25,9 @@ CORPUS = [
     "main:\n    li a0, 7\n    li a7, 5\n    ecall\n    addi a7, a0, 3\n    ecall\n    li a7, 10\n    ecall\n",
     "main:\n    addi sp, sp, -4\n    lw t0, 0(a0)\n    sw t0, 0(sp)\n    li t0, 10\n    addi t1, t0, 0\n    lw a7, 0(sp)\n    ecall\n    li a7, 10\n    ecall\n",
     "main:\n    li t0, 10\n    sub t3, t0, sp\n    div t4, zero, zero\n    mv a0, t3\n    li a7, 93\n    ecall\n",
+    # computations into the zero register, then uses of x0
+    "main:\n    li t0, 5\n    li t1, 6\n    add x0, t0, t1\n    addi a0, x0, 1\n    li a7, 1\n    ecall\n    li a7, 10\n    ecall\n",
+    "main:\n    addi sp, sp, -8\n    li t0, 9\n    sw t0, 4(sp)\n    lw zero, 4(sp)\n    add a0, zero, zero\n    addi a0, zero, 2\n    addi sp, sp, 8\n    li a7, 93\n    ecall\n",
 ]
 
 
